@@ -407,7 +407,12 @@ func judge(prop string, p *Plan, r *run, obs []*reqObs, res *core.Result) {
 				site := "dial target is not an address the origin's records lead to"
 				if ok && inTargets(all, ap) {
 					site = "dial target belongs to an HTTPS record that is not compatible with the chosen protocol"
-				} else if ok && len(m.Svc) > 0 && inTargets(func() []mTarget { pm := *m; pm.Svc = nil; l, _ := pm.targets(func(svcRec) bool { return true }); return l }(), ap) {
+				} else if ok && len(m.Svc) > 0 && inTargets(func() []mTarget {
+					pm := *m
+					pm.Svc = nil
+					l, _ := pm.targets(func(svcRec) bool { return true })
+					return l
+				}(), ap) {
 					site = "plain origin address dialled although compatible HTTPS records provide targets"
 				}
 				fail("dial-target", site, "%s: %s dial of %s (%s); permitted %s; records %s", want, d.Network, d.Addr, proto, targetText(list), svcText(m.Svc))
@@ -552,9 +557,6 @@ func judge(prop string, p *Plan, r *run, obs []*reqObs, res *core.Result) {
 	}
 	if len(p.Zone.Poison) > 0 && progress {
 		res.Probe("poisoned_answers_present")
-	}
-	for _, rec := range r.serves {
-		_ = rec
 	}
 	res.FaultN("dns_rcode_fault_configured", len(p.Zone.Faults))
 	nRefused, nCert := 0, 0
